@@ -3,7 +3,9 @@ package mon
 import (
 	"fmt"
 	"reflect"
+	"strings"
 
+	"github.com/xjslang/xjs/ast"
 	"github.com/xjslang/xjs/lexer"
 	"github.com/xjslang/xjs/parser"
 	"github.com/xjslang/xjs/token"
@@ -129,10 +131,99 @@ func runC13Tolerant(t *fw.T) {
 			t.Violate("tolerant-loses-statements", diffKey(want, got), "tolerant mode does not keep every complete statement in place: "+gen.Describe(rd.Src), w)
 		}
 	}
+	// the same with a plugin statement: every `while` keyword is spelled `unless`, a word that a token interceptor gives
+	// its own token type and a statement interceptor parses exactly like `while` (through the public API). A statement
+	// that begins with a plugin's keyword is a statement like any other: fused after another one on the same line,
+	// tolerant mode must accept it and keep both.
+	if r.IntN(2) == 0 {
+		var sb strings.Builder
+		last, n := 0, 0
+		for _, tk := range rd.Toks {
+			if tk.Kind == gen.TKeyword && tk.Text == "while" {
+				sb.WriteString(rd.Src[last:tk.Off])
+				sb.WriteString("unless")
+				last = tk.End
+				n++
+			} else if tk.Kind == gen.TIdent && tk.Text == "unless" {
+				n = -1 << 20
+			}
+		}
+		sb.WriteString(rd.Src[last:])
+		if n > 0 {
+			src2 := sb.String()
+			t.Count("programs_with_a_plugin_statement_keyword", 1)
+			for _, m := range []Mode{{Tolerant: true}, {Tolerant: true, Smart: true}} {
+				if m.Smart && hasLineLeadingBracket(src2) {
+					continue
+				}
+				var prog2 *ast.Program
+				var errs []parser.ParserError
+				wit := func() map[string]any {
+					return map[string]any{"source": src2, "mode": m.String(), "plugin": "`unless (c) s` parsed like `while (c) s`", "fused": rd.Fuses, "open_blocks": rd.CutBraces, "expected_tree": want}
+				}
+				if !t.Guard("tolerant parse with a plugin statement", wit, func() {
+					p := unlessBuilder(m).Build(src2)
+					prog2, _ = p.ParseProgram()
+					errs = p.Errors()
+				}) {
+					continue
+				}
+				if len(errs) > 0 {
+					w := wit()
+					w["errors"] = errs
+					t.Violate("tolerant-rejects-recoverable", "plugin statement/"+errKey(errs[0].Message), "tolerant mode reports an error on fused statements / open blocks when a statement begins with a plugin keyword: "+errs[0].Message+": "+gen.Describe(src2), w)
+					continue
+				}
+				if got := norm.S(prog2); got != want {
+					w := wit()
+					w["got_tree"] = got
+					t.Violate("tolerant-loses-statements", "plugin statement/"+diffKey(want, got), "tolerant mode does not keep every complete statement in place (plugin statement keyword): "+gen.Describe(src2), w)
+				}
+			}
+		}
+	}
 	t.Distinct(rd.Src)
 	if t.WantSample() && len(rd.Src) < 200 && (rd.Fuses > 0 || rd.CutBraces > 0) {
 		t.Sample(map[string]any{"stratum": "tolerant", "source": rd.Src, "fused": rd.Fuses, "open_blocks": rd.CutBraces})
 	}
+}
+
+// unlessBuilder: a builder with a plugin statement `unless (cond) stmt`, parsed into the same node as `while (cond) stmt`.
+func unlessBuilder(m Mode) *parser.Builder {
+	lb := lexer.NewBuilder()
+	u := lb.RegisterTokenType("unless")
+	lb.UseTokenInterceptor(func(l *lexer.Lexer, next func() token.Token) token.Token {
+		tok := next()
+		if tok.Type == token.IDENT && tok.Literal == "unless" {
+			tok.Type = u
+		}
+		return tok
+	})
+	pb := parser.NewBuilder(lb)
+	if m.Tolerant {
+		pb.WithTolerantMode(true)
+	}
+	if m.Smart {
+		pb.WithSmartSemicolon(true)
+	}
+	pb.UseStatementInterceptor(func(p *parser.Parser, next func() ast.Statement) ast.Statement {
+		if p.CurrentToken.Type != u {
+			return next()
+		}
+		st := &ast.WhileStatement{Token: p.CurrentToken}
+		if !p.ExpectToken(token.LPAREN) {
+			return nil
+		}
+		p.NextToken()
+		st.Condition = p.ParseExpression()
+		if !p.ExpectToken(token.RPAREN) {
+			return nil
+		}
+		p.NextToken()
+		st.Body = p.ParseStatement()
+		return st
+	})
+	return pb
 }
 
 // (d) statements separated by line breaks only, some beginning with '(' or '[': smart mode reads them as statements
